@@ -285,31 +285,24 @@ Qed.
 
 (* ---- `%word=value` / `tag word=value` / has_tag(/word/, /value/).  Documented meaning: the
    posting (or its transaction) has a metadata tag containing 'word' whose value contains 'value'
-   (tag_pair_matches).  What item_t::has_tag does (item.cc:58-72): never selects a posting without
-   such a tag (sound), selects every such posting when the valued tags whose name matches agree
-   about the value pattern, but in general the FIRST valued tag (map order) whose name matches
-   decides, so a posting tagged `ta: other` and `tb: val` is missed by `%t=val` (finding F207). ---- *)
+   (tag_pair_matches).  item_t::has_tag (item.cc:58-73, as repaired by 27e3f7d, finding F207)
+   selects exactly these postings: it never selects a posting without such a tag (sound) and
+   selects every posting that has one, whatever other tags share the name pattern (complete;
+   before the repair a posting tagged `ta: other` and `tb: val` was missed by `%t=val`). ---- *)
 Theorem has_tag_value_sound : forall tp vm p,
   has_tag tp (Some vm) p = true -> tag_pair_matches tp vm (p_tags p ++ p_xtags p).
 Proof. exact has_tag_value_sound_lemma. Qed.
 Print Assumptions has_tag_value_sound.
 
-Theorem has_tag_value_complete_when_agreeing : forall tp vm p,
-  tag_pair_matches tp vm (p_tags p ++ p_xtags p) ->
-  (forall k v, In (k, Some v) (p_tags p ++ p_xtags p) -> contains_ci tp k = true -> contains_ci vm v = true) ->
-  has_tag tp (Some vm) p = true.
-Proof. exact has_tag_value_complete_agreeing_lemma. Qed.
-Print Assumptions has_tag_value_complete_when_agreeing.
+Theorem has_tag_value_complete : forall tp vm p,
+  tag_pair_matches tp vm (p_tags p ++ p_xtags p) -> has_tag tp (Some vm) p = true.
+Proof. exact has_tag_value_complete_lemma. Qed.
+Print Assumptions has_tag_value_complete.
 
-(* witness: tags ta: other / tb: val, query %t=val *)
-Theorem has_tag_value_complete_refuted :
-  exists tp vm p, tag_pair_matches tp vm (p_tags p ++ p_xtags p) /\ has_tag tp (Some vm) p = false.
-Proof.
-  exists [116], [118;97;108].
-  exists (mkP 1 [65] [66] None None None
-              [([116;97], Some [111;116;104;101;114]); ([116;98], Some [118;97;108])] []
-              (mkA 1 []) None 15 SUncleared false).
-  split; [|vm_compute; reflexivity].
-  exists [116;98], [118;97;108]. split; [right; left; reflexivity|split; vm_compute; reflexivity].
-Qed.
-Print Assumptions has_tag_value_complete_refuted.
+(* the former witness of the defect: tags ta: other / tb: val, query %t=val - now selected *)
+Example has_tag_value_example :
+  has_tag [116] (Some [118;97;108])
+          (mkP 1 [65] [66] None None None
+               [([116;97], Some [111;116;104;101;114]); ([116;98], Some [118;97;108])] []
+               (mkA 1 []) None 15 SUncleared false) = true.
+Proof. vm_compute. reflexivity. Qed.
